@@ -67,7 +67,7 @@ TaskResult run_task(const Task &t, long long step_budget) {
   catch (SimAbort &) {
     // the compile was abandoned at a cost cap (bounded-but-slow expansion, or a parse that keeps spinning).  That is
     // not judged by itself, but it is an observable outcome: it must be the same whenever this task is compiled
-    g_slow_abandoned = false;
+    __atomic_store_n(&g_slow_abandoned, false, __ATOMIC_RELAXED);
     res.compile_fp = 0xABA2D02EDULL; res.exec_fp = 0; res.ok = false; res.abandoned = true;
     return res;
   }
@@ -228,7 +228,7 @@ void *thread_main(void *p) {
   ThreadArg *a = (ThreadArg *)p;
   Scheduler::tl_task = a->me;
   a->s->start(a->me);
-  try { *a->out = run_task(*a->task, a->budget); } catch (SimAbort &) { *a->threw = !g_slow_abandoned; } catch (...) { *a->threw = true; }
+  try { *a->out = run_task(*a->task, a->budget); } catch (SimAbort &) { *a->threw = !__atomic_load_n(&g_slow_abandoned, __ATOMIC_RELAXED); } catch (...) { *a->threw = true; }
   a->s->yield_point(0);  // API boundary
   a->s->finish(a->me);
   Scheduler::tl_task = -1;
